@@ -271,6 +271,15 @@ impl GrammarBuilder {
                     rule.name.span
                 )?
             }
+            // References are resolved to terminals first, so such a rule
+            // would never be used.
+            if self.terminals.contains_key(rule.name.as_ref()) {
+                err!(
+                    format!("Rule '{}' has the name of a terminal.", rule.name),
+                    Some(self.file.clone()),
+                    rule.name.span
+                )?
+            }
             // Create new nonterm index if needed
             let nt_idx;
             if let Some(nonterminal) = self.nonterminals.get(rule.name.as_ref()) {
